@@ -31,7 +31,29 @@ static void ev_faces(H3Index h) {
     fputs("}\n", vt_out);
     gb_free(o);
 }
+/* concurrent mode: 8 threads ask for the faces of cells along the icosahedron edges, of pentagons and of random cells at the same time
+ * (the answer is a function of the cell whatever other threads are asking); per-thread event streams */
+#include <pthread.h>
+typedef struct { CellVec cells; char *buf; size_t len; } FaceTh;
+static pthread_barrier_t g_bar;
+static void *face_worker(void *arg) {
+    FaceTh *t = arg; vt_out = open_memstream(&t->buf, &t->len);
+    pthread_barrier_wait(&g_bar);
+    for (int64_t i = 0; i < t->cells.n; i++) ev_faces(t->cells.v[i]);
+    fclose(vt_out); vt_out = NULL; return NULL;
+}
+static void face_threads(int quick, const char *path) {
+    enum { T = 8 }; FaceTh th[T]; pthread_t id[T]; memset(th, 0, sizeof th);
+    for (int t = 0; t < T; t++) { for (int res = 0; res <= 15; res++) { cv_pentagon_strata(&th[t].cells, res, 1); cv_seam_cells(&th[t].cells, res, quick ? 2 : 12); cv_random_cells(&th[t].cells, res, quick ? 4 : 30); }
+        for (int64_t i = th[t].cells.n - 1; i > 0; i--) { int64_t j = (int64_t)vt_randn(i + 1); H3Index x = th[t].cells.v[i]; th[t].cells.v[i] = th[t].cells.v[j]; th[t].cells.v[j] = x; } }   /* threads are at different resolutions at any moment */
+    pthread_barrier_init(&g_bar, NULL, T);
+    for (int t = 0; t < T; t++) pthread_create(&id[t], NULL, face_worker, &th[t]);
+    for (int t = 0; t < T; t++) pthread_join(id[t], NULL);
+    vt_open(path);
+    for (int t = 0; t < T; t++) { fwrite(th[t].buf, 1, th[t].len, vt_out); (free)(th[t].buf); cv_free(&th[t].cells); }
+}
 int main(int argc, char **argv) {
+    if (argc == 5 && !strcmp(argv[1], "threads")) { vt_seed(strtoull(argv[3], 0, 10) + 1919); face_threads(argv[2][0] == 'q', argv[4]); vt_close(); return 0; }
     if (argc == 4 && !strcmp(argv[1], "cells")) {
         FILE *in = fopen(argv[2], "r"); if (!in) return 2; vt_open(argv[3]); uint64_t h;
         while (fscanf(in, "%" SCNx64, &h) == 1) ev_faces(h);
